@@ -1,5 +1,7 @@
 package main
 
+import "strings"
+
 func init() { register("C10", c10) }
 
 func c10(c *Check) {
@@ -12,4 +14,19 @@ func c10(c *Check) {
 	c.Rule("C10/guards", "frozen table: parent looked up by (parent hash, height-1) and required; parent hash equality; timestamp not beyond block time + allowance and strictly after the parent; EIP-1559 gas-limit and base-fee rules; difficulty equals the calculated one unless chain id is Rinkeby; extra-data size and proof-of-work (light mode, fulldag=false) unless Rinkeby; seal: positive difficulty, mix digest, result below target; header indexed and root recorded; consensus state = header time/height/root; head := header", 40)
 	n := c.Frozen("C10")
 	c.Extra["frozen_entries"] = n
+	c.Rule("C10/rule-constants-immutable", "the package-level big.Int constants of the header rules (difficulty bounds, base-fee parameters) are never the receiver of a mutating big.Int method, directly or through a value that may alias them: the rule applied to one header does not depend on the headers verified before it in this process", 20)
+	for fn := range c.P.AllFuncs {
+		if !inScope(fn) || len(fn.Blocks) == 0 || !strings.Contains(fnPkgPath(fn), "light-clients/eth/types") {
+			continue
+		}
+		bad := ""
+		var pos = fn.Pos()
+		for _, s := range ndSites(c, fn) {
+			if s.Kind == "global-mutation" {
+				bad = s.What
+				pos = s.Pos
+			}
+		}
+		c.Req(bad == "", "C10/rule-constants-immutable", funcName(fn), pos, "", "a package-level big.Int is mutated: "+bad+" — every later header in this process is judged against the overwritten constant")
+	}
 }
